@@ -182,7 +182,8 @@ def render_blocks_(blocks, rendered, md, encoding):
                 if (skip_html_quote == 0 and len(block) == 3):
                     # html_quote
                     if isinstance(t, str):
-                        if ('&' in t or '<' in t or '>' in t or '"' in t):
+                        if ('&' in t or '<' in t or '>' in t or '"' in t or  # NOQA: W504,E501
+                                "'" in t):
                             # string includes html problem characters,
                             # so we cant skip the quoting process
                             skip_html_quote = 0
